@@ -148,6 +148,68 @@ theorem C07_old_xor_sorted_by_value :
     ∧ sortedByValue [.sc (.str (ascii "a")), .sc (.str (ascii "b")), .sc .none] = .error .typeError :=
   ⟨rfl, rfl, rfl⟩
 
+/-! ### aliasing is not content; the stale-placeholder variant of `hash_single` -/
+
+/-- One object referenced twice (`[x, x]`) and the equal value built from two separate equal objects (`[x, x']`, `x ≃ x'`:
+    other identities) get the same hash from `hash_single` WITH its per-call memo: memo transparency
+    (`C08_hashFunction_pure`, trees / DAGs) on both sides, and `≃` ignores identities.  The shape of
+    `T(reference=f, moving=f)` vs `T(reference=File(p), moving=File(p))`; an instance of `C07_value_env_invariant`. -/
+theorem C07_aliasing_invariant (H : Bytes → Bytes) (x x' : PyVal) (hxx : Equiv x x) (hxx' : Equiv x x')
+    (hs : sortable x = true) (W W' : Nat → Option Pre) (p p' : Pre)
+    (hp : pre (.seq 1 .list [x, x]) = .ok p) (hp' : pre (.seq 2 .list [x, x']) = .ok p')
+    (hu : UniqueIds W p) (hu' : UniqueIds W' p') :
+    hashFunction H (.seq 1 .list [x, x]) = hashFunction H (.seq 2 .list [x, x']) := by
+  have he : Equiv (.seq 1 .list [x, x]) (.seq 2 .list [x, x']) := by simp [Equiv, EquivList, hxx, hxx']
+  have hsl : sortable (.seq 1 .list [x, x]) = true := by simp [sortable, sortableList, hs]
+  exact (C07_value_env_invariant H _ _ he hsl).2 W W' p p' hp hp' hu hu'
+
+/-- VARIANT of `hash_single` (the branch that returns early for objects with a persistent-cache key skips
+    `cache[objid] = hsh`): for the ids in `keyed` the digest is returned but the memo keeps the cycle-guard placeholder. -/
+def evalMemoStale (H : Bytes → Bytes) (keyed : Nat → Bool) : Nat → Pre → Memo → Bytes × Memo
+  | _, .lit b, m => (b, m)
+  | _, .ref i, m => ((m.find i).getD HashLits.placeholder, m)
+  | _, .sorted _, m => ([], m)
+  | 0, _, m => ([], m)
+  | fuel + 1, .node i ps, m =>
+    match (if i = 0 then none else m.find i) with
+    | some d => (d, m)
+    | none =>
+      let m0 := if i = 0 then m else (i, HashLits.placeholder) :: m
+      let r := ps.foldl (fun (acc : Bytes × Memo) p => let q := evalMemoStale H keyed fuel p acc.2; (acc.1 ++ q.1, q.2)) ([], m0)
+      let d := H r.1
+      (d, if i = 0 ∨ keyed i then r.2 else (i, d) :: r.2)
+
+/-- `[f, f]`: one keyed object (id 5, e.g. a File) referenced twice -/
+def staleShared : Pre := .node 1 [lit listOpen, .node 5 [lit [102]], .node 5 [lit [102]], lit HashLits.seqClose]
+/-- `[File(p), File(p)]`: two separate equal objects (ids 5 and 6) -/
+def staleSeparate : Pre := .node 2 [lit listOpen, .node 5 [lit [102]], .node 6 [lit [102]], lit HashLits.seqClose]
+
+/-- DOCUMENTATION WITNESS (stale placeholder): under the variant the SECOND reference to the keyed object is answered with
+    the one-byte placeholder, so `[f, f]` feeds `H` a string of another length than `[File(p), File(p)]` does — equal values,
+    different hashes unless `H` collides — whereas the live `hash_single` (`evalMemo`) gives both the same hash. -/
+theorem C07_witness_stale_placeholder (H : Bytes → Bytes) (hlen : ∀ x, (H x).length = 16) :
+    (evalMemo H staleShared []).1 = (evalMemo H staleSeparate []).1
+    ∧ (let d := H [102]
+       let x := listOpen ++ (d ++ (HashLits.placeholder ++ HashLits.seqClose))
+       let y := listOpen ++ (d ++ (d ++ HashLits.seqClose))
+       x ≠ y ∧ (evalMemoStale H (fun i => i == 5) 3 staleShared []).1 = H x
+        ∧ (evalMemoStale H (fun i => i == 5) 3 staleSeparate []).1 = H y ∧ (evalMemo H staleSeparate []).1 = H y) := by
+  refine ⟨rfl, ?_, ?_, ?_, ?_⟩
+  · intro h
+    have h1 := List.append_cancel_left (List.append_cancel_left h)
+    have := congrArg List.length h1
+    simp only [List.length_append, hlen] at this
+    have hp : HashLits.placeholder.length = 1 := by decide
+    omega
+  · simp [evalMemoStale, staleShared, lit, Memo.find, List.foldl]
+  · simp [evalMemoStale, staleSeparate, lit, Memo.find, List.foldl]
+  · simp [evalMemo, evalMemoList, staleSeparate, lit, Memo.find]
+
+/-- an instance of `C07_aliasing_invariant`: `x = [1]` (id 5), `x' = [1]` (id 6) -/
+example (H : Bytes → Bytes) :
+    hashFunction H (.seq 1 .list [.seq 5 .list [.sc (.int 1)], .seq 5 .list [.sc (.int 1)]])
+      = hashFunction H (.seq 2 .list [.seq 5 .list [.sc (.int 1)], .seq 6 .list [.sc (.int 1)]]) := rfl
+
 /-! ### non-vacuity -/
 
 /-- a python task `T(a={"x","y"}, b={"k": 1})` and the same task as another session presents it -/
